@@ -16,12 +16,16 @@ var checks = map[string]func(*mon.Ctx){
 	"C02": mon.CheckC02,
 	"C07": mon.CheckC07,
 	"C09": mon.CheckC09,
+	"C15": mon.CheckC15,
 	"C16": mon.CheckC16,
+	"C18": mon.CheckC18,
 	"C03": mon.CheckC03,
 	"C04": mon.CheckC04,
 	"C05": mon.CheckC05,
 	"C06": mon.CheckC06,
+	"C10": mon.CheckC10,
 	"C11": mon.CheckC11,
+	"C12": mon.CheckC12,
 	"C08": mon.CheckC08,
 	"C13": mon.CheckC13,
 }
